@@ -282,4 +282,26 @@ theorem kept_nested_import_keeps_its_href :
   · decide
 end
 
+/-! ## T19.3, fetching — each available target is fetched exactly once per import edge
+
+Full statement (does NOT hold, known finding C19-unavailable-refetched): the fetcher is called exactly once per
+@import rule met while the tree is loaded, and never by `resolveImports`.
+What holds is the statement for the targets the fetcher can deliver: -/
+
+/-- while a sheet is parsed, the fetcher calls for deliverable URLs are exactly the import edges of the loaded
+tree whose target was found, each once, in the order the @import rules are met (depth first) — for every virtual
+file system, every sheet, every fuel -/
+theorem parse_fetches_each_found_target_once_partial (vfs : Vfs) (href : Str) (raw loaded : Sheet)
+    (h : (parseSheet vfs href raw).val = .ok loaded) :
+    (parseSheet vfs href raw).log.filter (avail vfs) = edgesL .user loaded := by
+  unfold parseSheet at h ⊢
+  exact loadWith_edges vfs .user _
+    (fun hr m r hv => twice_edges vfs .user _ (fun r' h' => setHref_edges vfs .user _ _ hr m r' h') r hv) raw loaded h
+
+/-- … and `resolveImports` on a tree it can flatten completely calls no fetcher at all
+(`resolveImports_flat_partial` gives the empty log) -/
+theorem flatten_fetches_nothing_partial (vfs : Vfs) (href : Str) (sheet out : Sheet) (h : Flat sheet out) :
+    (resolveImports vfs href sheet).log = [] := by
+  rw [resolveImports_flat_partial vfs href sheet out h]
+
 end CssVerif.C19
